@@ -31,6 +31,9 @@ mod hl_ext {
         pub fn bytes_be(&self) -> [u8; 32] { unimplemented!() }
         pub fn from_le(_v: U256) -> KnownWord { unimplemented!() }
         pub fn value_le(&self) -> U256 { unimplemented!() }
+        // robustness shims (NO contract beyond determinism): other readings of the word an edit might look the table up with
+        pub fn value_be(&self) -> U256 { unimplemented!() }
+        pub fn value_le_signed(&self) -> U256 { unimplemented!() }
     }
     impl From<usize> for KnownWord { fn from(_v: usize) -> KnownWord { unimplemented!() } }
     // A-EXT: sha3::Keccak256 through the `Digest` interface (`new`, `update`, `finalize`), the GenericArray it returns
@@ -105,6 +108,9 @@ pub uninterp spec fn kw_value(w: KnownWord) -> U256;
 pub uninterp spec fn kw_of_u256(v: U256) -> KnownWord;
 pub uninterp spec fn kw_of_usize(v: usize) -> KnownWord;
 pub assume_specification[ KnownWord::value_le ](w: &KnownWord) -> (r: U256) ensures r == kw_value(*w);
+pub uninterp spec fn kw_value_be(w: KnownWord) -> U256;
+pub assume_specification[ KnownWord::value_be ](w: &KnownWord) -> (r: U256) ensures r == kw_value_be(*w);
+pub assume_specification[ KnownWord::value_le_signed ](w: &KnownWord) -> (r: U256);
 pub assume_specification[ KnownWord::from_le ](v: U256) -> (r: KnownWord) ensures r == kw_of_u256(v);
 impl vstd::std_specs::convert::FromSpecImpl<usize> for KnownWord {
     open spec fn obeys_from_spec() -> bool { true }
